@@ -23,7 +23,7 @@ func c08Str(v interface{}) string { s, _ := v.(string); return s }
 
 func (c08Runner) Run(t *task.Task) error {
 	s := c08Seen{Dir: t.Dir}
-	s.Stage = c08Str(t.Env.Get("STAGE"))
+	s.Stage = c08Str(t.Variables.Get(".Stage.Name")) // set for every stage by buildPipeline
 	s.EnvK = c08Str(t.Env.Get("K"))
 	s.EnvT = c08Str(t.Env.Get("T"))
 	s.VarK = c08Str(t.Variables.Get("K"))
@@ -38,7 +38,7 @@ func (c08Runner) Finish() {}
 var c08Vals = []string{"p", "q", "r"}
 var c08StageNames = []string{"s0", "s1", "s2"}
 
-// VerifC08: three stages share one task. Stage s0 overrides env K, variable K
+// VerifC08: four stages share one task. Stage s0 overrides env K, variable K
 // and dir; s1 overrides env K only; s2 overrides nothing. arr: 0 all parallel,
 // 1 chain s0->s1->s2, 2 chain s2->s1->s0 (stages with overrides run last), 3
 // mixed (s1, s2 after s0). A second pipeline and a direct run use the task afterwards.
@@ -48,28 +48,31 @@ func VerifC08(arr, preempt int) {
 	vt, wt := rt.OneOf("task.env.K", c08Vals...), rt.OneOf("task.var.K", c08Vals...)
 	v0, w0 := rt.OneOf("s0.env.K", c08Vals...), rt.OneOf("s0.var.K", c08Vals...)
 	v1 := rt.OneOf("s1.env.K", c08Vals...)
+	w3 := rt.OneOf("s3.var.K", c08Vals...)
 	def := &taskDefinition{Name: "tk", Command: []string{"cmd"}, Dir: "/task-dir",
 		Env: map[string]string{"K": vt, "T": "task-only"}, Variables: map[string]string{"K": wt, "T": "task-var"}}
 	t, err := buildTask(def, &loaderContext{Dir: "/proj"})
 	rt.Assert(err == nil, "C08.task-built")
 	cfg := NewConfig()
 	cfg.Tasks["tk"] = t
+	// s3 overrides a VARIABLE only (no env, no dir); s2 and the other pipeline's stage override nothing
 	deps := [][][]string{
-		{nil, nil, nil},
-		{nil, {"s0"}, {"s1"}},
-		{{"s1"}, {"s2"}, nil},
-		{nil, {"s0"}, {"s0"}},
+		{nil, nil, nil, nil},
+		{nil, {"s0"}, {"s1"}, {"s2"}},
+		{{"s1"}, {"s2"}, {"s3"}, nil},
+		{nil, {"s0"}, {"s0"}, {"s0"}},
 	}[arr]
 	sds := []*stageDefinition{
-		{Name: "s0", Task: "tk", DependsOn: deps[0], Dir: "/s0-dir", Env: map[string]string{"K": v0, "STAGE": "s0"}, Variables: map[string]string{"K": w0}},
-		{Name: "s1", Task: "tk", DependsOn: deps[1], Env: map[string]string{"K": v1, "STAGE": "s1"}},
-		{Name: "s2", Task: "tk", DependsOn: deps[2], Env: map[string]string{"STAGE": "s2"}},
+		{Name: "s0", Task: "tk", DependsOn: deps[0], Dir: "/s0-dir", Env: map[string]string{"K": v0}, Variables: map[string]string{"K": w0}},
+		{Name: "s1", Task: "tk", DependsOn: deps[1], Env: map[string]string{"K": v1}},
+		{Name: "s2", Task: "tk", DependsOn: deps[2]},
+		{Name: "s3", Task: "tk", DependsOn: deps[3], Variables: map[string]string{"K": w3}},
 	}
 	g, _ := scheduler.NewExecutionGraph()
 	g, err = buildPipeline(g, sds, cfg)
 	rt.Assert(err == nil, "C08.pipeline-built")
 	g2, _ := scheduler.NewExecutionGraph()
-	g2, err = buildPipeline(g2, []*stageDefinition{{Name: "other", Task: "tk", Env: map[string]string{"STAGE": "other"}}}, cfg)
+	g2, err = buildPipeline(g2, []*stageDefinition{{Name: "other", Task: "tk"}}, cfg)
 	rt.Assert(err == nil, "C08.second-pipeline-built")
 	if err != nil {
 		return
@@ -78,7 +81,7 @@ func VerifC08(arr, preempt int) {
 	rt.Assert(sd.Schedule(g) == nil, "C08.pipeline-ran")
 	rt.Assert(sd.Schedule(g2) == nil, "C08.second-pipeline-ran")
 
-	rt.Assert(len(c08Runs) == 4, "C08.every-stage-ran-once")
+	rt.Assert(len(c08Runs) == 5, "C08.every-stage-ran-once")
 	for _, s := range c08Runs {
 		wantEnvK, wantVarK, wantDir := vt, wt, "/task-dir"
 		switch s.Stage {
@@ -86,6 +89,8 @@ func VerifC08(arr, preempt int) {
 			wantEnvK, wantVarK, wantDir = v0, w0, "/s0-dir"
 		case "s1":
 			wantEnvK = v1
+		case "s3":
+			wantVarK = w3
 		case "s2", "other":
 		default:
 			rt.Assert(false, "C08.stage-marker-is-the-stage's-own")
@@ -99,7 +104,7 @@ func VerifC08(arr, preempt int) {
 	// a direct run afterwards sees the task's own settings
 	d := cfg.Tasks["tk"]
 	rt.Assert(c08Str(d.Env.Get("K")) == vt, "C08.direct-run-sees-the-task's-own-env")
-	rt.Assert(d.Env.Has("STAGE") == false, "C08.direct-run-sees-no-stage-env")
+	rt.Assert(d.Variables.Has(".Stage.Name") == false, "C08.direct-run-sees-no-stage-variable")
 	rt.Assert(c08Str(d.Variables.Get("K")) == wt, "C08.direct-run-sees-the-task's-own-variables")
 	rt.Assert(d.Dir == "/task-dir", "C08.direct-run-sees-the-task's-own-dir")
 	rt.Cover("C08.checked")
